@@ -395,6 +395,24 @@ def index_set(name):
         return [('list', L) for L in _lists(2, [-3, -1, 0, 2])]
     if name == 'a-imat':
         return [('imat', L) for L in _lists(2, [-3, -1, 0, 2])]
+    # ---- asan quick: smallest sets that still reach every index code path with in-range, negative, out-of-range
+    #      and huge values
+    if name == 'b-int':
+        return [('int', k) for k in (0, 1, -1, 2, -3, 4, -5)] + [('int', k) for k in LARGE] + BAD[:1]
+    if name == 'b-slice':
+        return _slices([None, -2, 1], [None, 3], [None, -1])
+    if name == 'b-list':
+        return [('list', L) for L in _lists(2, [-3, 0, 2])]
+    if name == 'b-imat':
+        return [('imat', L) for L in _lists(2, [-3, 0, 2])]
+    if name == 'sa-int':
+        return [('int', k) for k in (0, -1, 2, 2 ** 32)]
+    if name == 'sa-slice':
+        return _slices([None, 1], [None], [None, -1])
+    if name == 'sa-list':
+        return [('list', L) for L in ([], [0], [1, -2], [3])]
+    if name == 'sa-imat':
+        return [('imat', L) for L in ([0], [1, -2], [-4])]
     raise AssertionError(name)
 
 
@@ -1516,14 +1534,24 @@ def _act_pattern(act, env, operands, tc_pre):
 
 # =========================================================================== enumeration of cases
 def cases(tier, seed, flavour):
+    """Enumeration levels: Q = plain quick, T = plain thorough, A0 = asan quick, A1 = asan thorough.
+    The ASan build runs the interpreter about 100x slower (every Python allocation goes through the sanitizer),
+    so its domains are reduced to the part that matters for memory safety: all index / assignment code paths with
+    negative, out-of-range and huge indices, all buffer layouts, type-changing in-place operators."""
     pal = seed % 4
-    asan_q = (flavour == 'asan' and tier == 'quick')
-    shapes = ASAN_SHAPES if asan_q else SHAPES
-    mats = [(tc, list(s)) for s in shapes for tc in TCS]
-    shl = [list(s) for s in shapes]
+    lvl = {('plain', 'quick'): 'Q', ('plain', 'thorough'): 'T', ('asan', 'quick'): 'A0'}.get((flavour, tier), 'A1')
+    if lvl == 'A0':
+        mats = [(tc, list(s)) for s in ((0, 2), (1, 1), (2, 3), (3, 2)) for tc in 'dz']
+        shl = [[0, 2], [1, 1], [2, 3], [3, 2]]
+    elif lvl == 'A1':
+        mats = [(tc, list(s)) for s in ASAN_SHAPES for tc in TCS]
+        shl = [list(s) for s in ASAN_SHAPES]
+    else:
+        mats = [(tc, list(s)) for s in SHAPES for tc in TCS]
+        shl = [list(s) for s in SHAPES]
     # ---- construction
     yield {'part': 'cons', 'form': 'number', 'pal': pal}
-    for n in ((0, 2, 6) if asan_q else range(7)):
+    for n in ((0, 3) if lvl == 'A0' else ((0, 2, 6) if lvl == 'A1' else range(7))):
         yield {'part': 'cons', 'form': 'seq', 'n': n, 'pal': pal}
     for s in shl:
         yield {'part': 'cons', 'form': 'matrix', 'shape': s, 'pal': pal}
@@ -1531,37 +1559,39 @@ def cases(tier, seed, flavour):
         yield {'part': 'cons', 'form': 'sparse', 'shape': s, 'pal': pal}
     for lo in range(0, 200, 25):
         yield {'part': 'cons', 'form': 'buffer', 'lo': lo, 'hi': lo + 25, 'pal': pal}
-    ntier = 'thorough' if tier == 'thorough' else 'quick'
+    ntier = 'thorough' if lvl == 'T' else 'quick'
     na = 11 if ntier == 'thorough' else 8
     ncols = 1 + na + na * na
-    for first in range(ncols):
-        if asan_q and first % 6:
-            continue
+    step = {'A0': 12, 'A1': 4}.get(lvl, 1)
+    for first in range(0, ncols, step):
         yield {'part': 'cons', 'form': 'nested', 'tier': ntier, 'first': first, 'pal': pal}
     # ---- attributes, methods, built-ins
     for tc, s in mats:
         yield {'part': 'attr', 'tc': tc, 'shape': s, 'pal': pal}
     # ---- one-argument indexing
+    g1 = ('a-int', 'q2-slice', 'a-list', 'a-imat') if lvl == 'A0' else ('int', 'slice-full', 'list-full', 'imat-full')
     for tc, s in mats:
-        for nm in (('a-int', 'slice-full', 'a-list', 'a-imat') if asan_q else ('int', 'slice-full', 'list-full', 'imat-full')):
+        for nm in g1:
             yield {'part': 'get1', 'tc': tc, 'shape': s, 'pal': pal, 'set': nm}
     # ---- two-argument indexing
-    pre = 'a-' if asan_q else ('t2-' if tier == 'thorough' else 'q2-')
+    pre = {'A0': 'b-', 'A1': 'a-', 'Q': 'q2-', 'T': 't2-'}[lvl]
     sets2 = [pre + k for k in KINDS]
     for tc, s in mats:
         for nm in sets2:
             yield {'part': 'get2', 'tc': tc, 'shape': s, 'pal': pal, 'rowset': nm, 'colsets': sets2, 'extra': nm.endswith('int')}
     # ---- one-argument assignment
-    red = tier != 'thorough'
+    s1 = ['b-' + k for k in KINDS] if lvl == 'A0' else ['s1-' + k for k in KINDS]
     for tc, s in mats:
-        for nm in (('a-int', 'a-slice', 'a-list', 'a-imat') if asan_q else ('s1-int', 's1-slice', 's1-list', 's1-imat')):
-            yield {'part': 'set1', 'tc': tc, 'shape': s, 'pal': pal, 'set': nm, 'reduced': asan_q}
+        for nm in s1:
+            yield {'part': 'set1', 'tc': tc, 'shape': s, 'pal': pal, 'set': nm, 'reduced': lvl == 'A0'}
     # ---- two-argument assignment
-    pre = 'st-' if tier == 'thorough' else 'sq-'
+    pre = {'A0': 'sa-', 'A1': 'sq-', 'Q': 'sq-', 'T': 'st-'}[lvl]
     ssets = [pre + k for k in KINDS]
     for tc, s in mats:
+        if lvl == 'A1' and tc == 'i':
+            continue
         for nm in ssets:
-            yield {'part': 'set2', 'tc': tc, 'shape': s, 'pal': pal, 'rowset': nm, 'colsets': ssets, 'reduced': red}
+            yield {'part': 'set2', 'tc': tc, 'shape': s, 'pal': pal, 'rowset': nm, 'colsets': ssets, 'reduced': lvl != 'T'}
     # ---- operators, in-place operators, functions
     for tc, s in mats:
         yield {'part': 'arith', 'tc': tc, 'shape': s, 'pal': pal, 'shapes': shl}
@@ -1569,19 +1599,17 @@ def cases(tier, seed, flavour):
         yield {'part': 'inplace', 'tc': tc, 'shape': s, 'pal': pal, 'shapes': shl}
     for k, (tc, s) in enumerate(mats):
         yield {'part': 'func', 'tc': tc, 'shape': s, 'pal': pal, 'shapes': shl, 'numbers': k < 3}
-    for first in range(10):
+    for first in ((5, 9) if lvl == 'A0' else range(10)):
         yield {'part': 'func3', 'first': first, 'pal': pal}
     # ---- hist: one case = one initial configuration, inner BFS
-    for shape in ([2, 2], [2, 3]):
-        for tc in TCS:
-            if asan_q:
-                plans = [('core', 2)]
-            elif tier == 'thorough':
-                plans = [('full', 3), ('core', 4)]
-            else:
-                plans = [('full', 2), ('core', 3)]
-            for alphabet, depth in plans:
-                yield {'part': 'hist', 'tc': tc, 'shape': shape, 'pal': pal, 'depth': depth, 'alphabet': alphabet}
+    if lvl == 'A0':
+        configs = [('d', [2, 2]), ('z', [2, 3])]
+    else:
+        configs = [(tc, shape) for shape in ([2, 2], [2, 3]) for tc in TCS]
+    plans = {'A0': [('core', 2)], 'A1': [('full', 2)], 'Q': [('full', 2), ('core', 3)], 'T': [('full', 3), ('core', 4)]}[lvl]
+    for tc, shape in configs:
+        for alphabet, depth in plans:
+            yield {'part': 'hist', 'tc': tc, 'shape': shape, 'pal': pal, 'depth': depth, 'alphabet': alphabet}
 
 
 def crash_key(case):
